@@ -201,21 +201,23 @@ impl PageTree {
         if depth == 0 {
             bail!("page tree depth exeeded");
         }
-        let mut pos = 0;
+        let mut pos: u32 = 0;
         for &kid in &self.kids {
             let node = resolve.get(kid)?;
             match *node {
                 PagesNode::Tree(ref tree) => {
-                    if (pos .. pos + tree.count).contains(&page_nr) {
+                    // (/Count is a number from the file: the running position saturates)
+                    let end = pos.saturating_add(tree.count);
+                    if (pos .. end).contains(&page_nr) {
                         return tree.page_limited(resolve, page_nr - pos, depth - 1);
                     }
-                    pos += tree.count;
+                    pos = end;
                 }
                 PagesNode::Leaf(ref _page) => {
                     if pos == page_nr {
                         return Ok(PageRc(node));
                     }
-                    pos += 1;
+                    pos = pos.saturating_add(1);
                 }
             }
         }
@@ -1063,8 +1065,25 @@ pub enum AppearanceStreamEntry {
 }
 impl Object for AppearanceStreamEntry {
     fn from_primitive(p: Primitive, resolve: &impl Resolve) -> Result<Self> {
+        // an appearance is a stream or a dictionary of states; a few levels are plenty
+        Self::from_primitive_depth(p, resolve, 4)
+    }
+}
+impl AppearanceStreamEntry {
+    // The values of a state dictionary are resolved as plain primitives, which the recursion guard
+    // of typed loads does not see: a dictionary that refers to itself needs its own bound.
+    fn from_primitive_depth(p: Primitive, resolve: &impl Resolve, depth: usize) -> Result<Self> {
         match p.resolve(resolve)? {
-            p @ Primitive::Dictionary(_) => Object::from_primitive(p, resolve).map(AppearanceStreamEntry::Dict),
+            Primitive::Dictionary(dict) => {
+                if depth == 0 {
+                    bail!("appearance dictionary nested too deeply");
+                }
+                let mut states = HashMap::new();
+                for (key, val) in dict.iter() {
+                    states.insert(key.clone(), Self::from_primitive_depth(val.clone(), resolve, depth - 1)?);
+                }
+                Ok(AppearanceStreamEntry::Dict(states))
+            }
             p @ Primitive::Stream(_) => Object::from_primitive(p, resolve).map(AppearanceStreamEntry::Single),
             p => Err(PdfError::UnexpectedPrimitive {expected: "Dict or Stream", found: p.get_debug_name()})
         }
